@@ -27,8 +27,9 @@ AGENT_HFILES = ["common/common_test.go.tmpl", "agent/cmesh_test.go", "agent/slee
 
 
 def consts(ctx):
-    return ({"MaxCalls": 4, "MaxPolls": 3, "MaxRestarts": 1} if ctx.quick()
-            else {"MaxCalls": 5, "MaxPolls": 4, "MaxRestarts": 1})
+    # PollErr: the bare-manager replay also lets the OnPoll callback return an error (seeded/C30-s4)
+    return ({"MaxCalls": 4, "MaxPolls": 3, "MaxRestarts": 1, "PollErr": "TRUE"} if ctx.quick()
+            else {"MaxCalls": 5, "MaxPolls": 4, "MaxRestarts": 1, "PollErr": "TRUE"})
 
 
 def base_act(a):
@@ -61,7 +62,7 @@ def model(ctx):
     """TLC: ideal spec (edges emitted) + one small run per deviation (must be caught by the part of the statement it
     breaks) + the transition relation of every single-deviation variant of the same bounded model (classification)"""
     c = consts(ctx)
-    small = {"MaxCalls": 3, "MaxPolls": 2, "MaxRestarts": 1}
+    small = {"MaxCalls": 3, "MaxPolls": 2, "MaxRestarts": 1, "PollErr": "TRUE"}
     jobs = [dict(module=MODULE, name="ideal", workers=2, cfg=R.cfg_text(c, emit=True, invs=INVS, props=PROPS))]
     for d in DEVS:
         _, invs, props = DEV_CAUGHT_BY[d]
@@ -114,7 +115,7 @@ def describe(mm):
 
 # ---------------------------------------------------------------------------------------------- agent level (doPoll)
 def agent_consts(ctx):
-    return {"MaxCalls": 2 if ctx.quick() else 3, "MaxPolls": 1, "MaxRestarts": 0}
+    return {"MaxCalls": 2 if ctx.quick() else 3, "MaxPolls": 1, "MaxRestarts": 0, "PollErr": "FALSE"}
 
 
 def agent_edges(edges):
